@@ -88,7 +88,7 @@ Definition fresh_key (k : Z) : MX unit :=
 Definition drv_alive : MX driver := d <- get_driver ;; if d_alive d then ret d else bad 130.
 
 (* ---- operations that may appear at top level and inside blocks (tasks / handlers) ----------------------- *)
-Definition run_simple_op (r : raw) : MX unit :=
+Definition run_simple_op0 (r : raw) : MX unit :=
   let '(opc, a) := r in
   let a0 := nthZ a 0 in let a1 := nthZ a 1 in let a2 := nthZ a 2 in let a3 := nthZ a 3 in let a4 := nthZ a 4 in
   match opc with
@@ -201,6 +201,21 @@ Definition run_simple_op (r : raw) : MX unit :=
   | _ => bad 100
   end.
 
+(* lenient operations (code + 1000): a precondition that does not hold (socket missing / closed / of the wrong class,
+   ToDo missing or without handle, no driver) skips the operation — state untouched — instead of ending the case: fault-injection scenarios go on after a
+   constructor threw *)
+Definition skippable (w : Z) : bool := ((102 <=? w) && (w <=? 106)) || (w =? 120) || (w =? 121) || (w =? 130).
+
+Definition lenient (opc : Z) (m : MX unit) : MX unit :=
+  fun s => match m s with
+           | (Bad w, s') => if skippable w then emit K_RET [opc; 2; w] s else (Bad w, s')
+           | other => other
+           end.
+
+Definition run_simple_op (r : raw) : MX unit :=
+  let '(opc, a) := r in
+  if 1000 <=? opc then lenient (opc - 1000) (run_simple_op0 (opc - 1000, a)) else run_simple_op0 r.
+
 Fixpoint run_block_ops (ops : list raw) : MX unit :=
   match ops with
   | [] => ret tt
@@ -261,15 +276,17 @@ Definition driver_destroy : MX unit :=
   else ret tt.
 
 Definition run_op (r : raw) : MX unit :=
-  let '(opc, a) := r in
+  let '(opc0, a) := r in
   let a0 := nthZ a 0 in
+  let opc := if 1000 <=? opc0 then opc0 - 1000 else opc0 in
+  (if 1000 <=? opc0 then lenient opc else (fun m => m))
   (match opc with
    (* 40 DRIVER_NEW / 41 STEP timeout / 42 RUN / 44 DRIVER_DESTROY *)
    | 40 => api opc (driver_new ;;; ret [])
    | 41 => _ <- drv_alive ;; api opc (step run_block a0 ;;; ret [])
    | 42 => _ <- drv_alive ;; api opc (run run_block ;;; ret [])
    | 44 => api opc (driver_destroy ;;; ret [])
-   | _ => run_simple_op r
+   | _ => run_simple_op0 (opc, a)
    end) ;;;
   report_state.
 
